@@ -249,6 +249,54 @@ for name, decl, e1, e2 in [
     rej = f"{decl} let r = {e1}; let s = {e2}; println!(\"{{:?}}\", r); println!(\"{{:?}}\", s);"
     pair("alias-mut", f"alias_{name}", acc, rej, "Bw")
 
+# ------------------------------------------------------------------ generic lengths: the documented bounds suffice
+GEN_TOP = """use core::ops::{Add, Div, Mul, Sub};
+"""
+generic = [
+    ("concat", "fn join<T, N, M>(a: GenericArray<T, N>, b: GenericArray<T, M>) -> GenericArray<T, Sum<N, M>> where N: ArrayLength + Add<M>, M: ArrayLength, Sum<N, M>: ArrayLength { a.concat(b) }",
+     "let _: GenericArray<i32, U5> = join(arr![1, 2], arr![3, 4, 5]);", "let _: GenericArray<i32, U4> = join(arr![1, 2], arr![3, 4, 5]);"),
+    ("split", "fn cut<T, N, K>(a: GenericArray<T, N>) -> (GenericArray<T, K>, GenericArray<T, Diff<N, K>>) where N: ArrayLength + Sub<K>, K: ArrayLength, Diff<N, K>: ArrayLength { a.split() }",
+     "let (_h, _t): (GenericArray<i32, U1>, GenericArray<i32, U2>) = cut(arr![1, 2, 3]);", "let (_h, _t): (GenericArray<i32, U1>, GenericArray<i32, U3>) = cut(arr![1, 2, 3]);"),
+    ("split_ref", "fn cut<'a, T, N, K>(a: &'a GenericArray<T, N>) -> (&'a GenericArray<T, K>, &'a GenericArray<T, Diff<N, K>>) where N: ArrayLength + Sub<K>, K: ArrayLength, Diff<N, K>: ArrayLength { a.split() }",
+     "let a = arr![1, 2, 3]; let (_h, _t): (&GenericArray<i32, U2>, &GenericArray<i32, U1>) = cut(&a);", "let a = arr![1, 2, 3]; let (_h, _t): (&GenericArray<i32, U2>, &GenericArray<i32, U2>) = cut(&a);"),
+    ("append", "fn push<T, N>(a: GenericArray<T, N>, x: T) -> GenericArray<T, Add1<N>> where N: ArrayLength + Add<B1>, Add1<N>: ArrayLength + Sub<B1, Output = N>, Sub1<Add1<N>>: ArrayLength { a.append(x) }",
+     "let _: GenericArray<i32, U4> = push(arr![1, 2, 3], 4);", "let _: GenericArray<i32, U3> = push(arr![1, 2, 3], 4);"),
+    ("pop_back", "fn pop<T, N>(a: GenericArray<T, N>) -> (GenericArray<T, Sub1<N>>, T) where N: ArrayLength + Sub<B1>, Sub1<N>: ArrayLength + Add<B1, Output = N>, Add1<Sub1<N>>: ArrayLength { a.pop_back() }",
+     "let (_r, _x): (GenericArray<i32, U2>, i32) = pop(arr![1, 2, 3]);", "let (_r, _x): (GenericArray<i32, U3>, i32) = pop(arr![1, 2, 3]);"),
+    ("remove", "fn rm<T, N>(a: GenericArray<T, N>, i: usize) -> (T, GenericArray<T, Sub1<N>>) where N: ArrayLength + Sub<B1>, Sub1<N>: ArrayLength { a.remove(i) }",
+     "let (_x, _r): (i32, GenericArray<i32, U2>) = rm(arr![1, 2, 3], 1);", "let (_x, _r): (i32, GenericArray<i32, U1>) = rm(arr![1, 2, 3], 1);"),
+    ("flatten", "fn flat<T, N, M>(a: GenericArray<GenericArray<T, N>, M>) -> GenericArray<T, Prod<N, M>> where N: ArrayLength + Mul<M>, M: ArrayLength, Prod<N, M>: ArrayLength { a.flatten() }",
+     "let _: GenericArray<i32, U6> = flat(arr![arr![1, 2], arr![3, 4], arr![5, 6]]);", "let _: GenericArray<i32, U5> = flat(arr![arr![1, 2], arr![3, 4], arr![5, 6]]);"),
+    ("unflatten", "fn unflat<T, NM, N>(a: GenericArray<T, NM>) -> GenericArray<GenericArray<T, N>, Quot<NM, N>> where NM: ArrayLength + Div<N>, N: ArrayLength, Quot<NM, N>: ArrayLength { a.unflatten() }",
+     "let _: GenericArray<GenericArray<i32, U2>, U3> = unflat(arr![1, 2, 3, 4, 5, 6]);", "let _: GenericArray<GenericArray<i32, U2>, U4> = unflat(arr![1, 2, 3, 4, 5, 6]);"),
+    ("map", "fn dbl<N: ArrayLength>(a: GenericArray<i32, N>) -> GenericArray<i64, N> { a.map(|x| x as i64 * 2) }",
+     "let _: GenericArray<i64, U3> = dbl(arr![1, 2, 3]);", "let _: GenericArray<i64, U4> = dbl(arr![1, 2, 3]);"),
+    ("zip", "fn add<N: ArrayLength>(a: GenericArray<i32, N>, b: &GenericArray<i32, N>) -> GenericArray<i32, N> { a.zip(b, |x, y| x + *y) }",
+     "let b = arr![4, 5, 6]; let _ = add(arr![1, 2, 3], &b);", "let b = arr![4, 5, 6, 7]; let _ = add(arr![1, 2, 3], &b);"),
+    ("zip_refs", "fn add<N: ArrayLength>(a: &GenericArray<i32, N>, b: &GenericArray<i32, N>) -> GenericArray<i32, N> { a.zip(b, |x, y| *x + *y) }",
+     "let (a, b) = (arr![1, 2, 3], arr![4, 5, 6]); let _ = add(&a, &b);", "let (a, b) = (arr![1, 2, 3], arr![4, 5]); let _ = add(&a, &b);"),
+    ("fold", "fn sum<N: ArrayLength>(a: &GenericArray<i32, N>) -> i32 { a.fold(0, |acc, x| acc + *x) }",
+     "let _ = sum(&arr![1, 2, 3]);", "let _ = sum(&[1, 2, 3]);"),
+    ("generate", "fn iota<N: ArrayLength>() -> GenericArray<usize, N> { GenericArray::generate(|i| i) }",
+     "let _: GenericArray<usize, U7> = iota();", "let _: GenericArray<u8, U7> = iota();"),
+    ("default_clone_eq", "fn same<T: Default + Clone + PartialEq, N: ArrayLength>() -> bool { let a = GenericArray::<T, N>::default(); a.clone() == a }",
+     "let _ = same::<String, U5>();", "let _ = same::<NoClone, U5>();"),
+    ("hex", "fn hx<N>(a: &GenericArray<u8, N>) -> String where N: ArrayLength + Add<N>, Sum<N, N>: ArrayLength { format!(\"{:x}{:X}\", a, a) }",
+     "let _ = hx(&arr![1u8, 2, 3]);", "let _ = hx(&arr![1u16, 2, 3]);"),
+    ("from_iter", "fn coll<N: ArrayLength>(v: Vec<i32>) -> Option<GenericArray<i32, N>> { GenericArray::try_from_iter(v).ok() }",
+     "let _: Option<GenericArray<i32, U3>> = coll(vec![1, 2, 3]);", "let _: Option<GenericArray<i64, U3>> = coll(vec![1, 2, 3]);"),
+    ("const_generic", "fn conv<const K: usize>(a: [u32; K]) -> GenericArray<u32, generic_array::ConstArrayLength<K>> where generic_array::typenum::Const<K>: generic_array::IntoArrayLength { GenericArray::from(a) }",
+     "let _: GenericArray<u32, U4> = conv([1, 2, 3, 4]);", "let _: GenericArray<u32, U5> = conv([1, 2, 3, 4]);"),
+    ("copy_struct", "#[derive(Clone, Copy)] struct W<N: ArrayLength> where N::ArrayType<f32>: Copy { d: GenericArray<f32, N> }",
+     "let w = W::<U3> { d: arr![1.0, 2.0, 3.0] }; let v = w; let _ = (w.d, v.d);", "let w = W::<U3> { d: arr![1.0, 2.0, 3.0, 4.0] }; let v = w; let _ = (w.d, v.d);"),
+    ("into_iter_generic", "fn total<N: ArrayLength>(a: GenericArray<i32, N>) -> i32 { a.into_iter().rev().skip(1).sum() }",
+     "let _ = total(arr![1, 2, 3]);", "let _ = total(arr![1u8, 2, 3]);"),
+    ("boxed_generic", "fn bx<N: ArrayLength>() -> Box<GenericArray<u64, N>> { GenericArray::default_boxed() }",
+     "let _: Box<GenericArray<u64, U9>> = bx();", "let _: Box<GenericArray<u32, U9>> = bx();"),
+]
+for name, top, acc, rej in generic:
+    pair("generic-length", f"generic_{name}", acc, rej, "Lk", toplevel=GEN_TOP + top + "\n")
+
 # ------------------------------------------------------------------ write out
 if os.path.isdir(BIN):
     shutil.rmtree(BIN)
